@@ -35,6 +35,7 @@ Proof. destruct x as [e| | | | | | | | | |]; cbn; auto. destruct e; cbn; auto. Q
 Ltac li_inst L :=
   first [eapply L with (P := ext_by loop_item) (ok_item := loop_item) | eapply L with (P := ext_by loop_item)];
   try exact (ext_refl loop_item); try exact (ext_trans loop_item);
+  try (apply ext_close_socket_gen; exact I);
   try (intros; apply send_from_emit with (ok_item := loop_item); try exact (ext_refl loop_item); try exact (ext_trans loop_item);
        try (intros; apply ext_emit; assumption); try (intros; apply ext_field; reflexivity); try (intros; exact I));
   try (intros; apply ext_emit; assumption);
